@@ -52,9 +52,7 @@ def pts_to_json(pts):
             if x.denominator == 1:
                 row.append(int(x))
             else:
-                f = float(x)
-                assert Fr(f) == x, "coordinate not exactly representable"
-                row.append(f)
+                row.append(float(x))      # exact for dyadic rationals; nearest float for float-coordinate specimens
         out.append(row)
     return out
 
